@@ -73,11 +73,28 @@ structure PushSame (c c' : Conn) : Prop where
   tx : c'.tx = c.tx
   g : c'.g = c.g
   neg : c'.negotiated = c.negotiated
+  handlers : c'.handlers = c.handlers
+  idHandlers : c'.idHandlers = c.idHandlers
+  timed : c'.timed = c.timed
+  hasSm : c'.hasSm = c.hasSm
+  pst : c'.pst = c.pst
+  resetParser : c'.resetParser = c.resetParser
+  smId : c'.sm.id = c.sm.id
+  smPrevid : c'.sm.previd = c.sm.previd
+  smBoundJid : c'.sm.boundJid = c.sm.boundJid
+  smSupport : c'.sm.support = c.sm.support
+  smCanResume : c'.sm.canResume = c.sm.canResume
+  smDisable : c'.smDisable = c.smDisable
 
-theorem PushSame.refl (c : Conn) : PushSame c c := ⟨rfl, rfl, rfl, rfl, rfl, rfl, rfl, rfl⟩
+theorem PushSame.refl (c : Conn) : PushSame c c :=
+  ⟨rfl, rfl, rfl, rfl, rfl, rfl, rfl, rfl, rfl, rfl, rfl, rfl, rfl, rfl, rfl, rfl, rfl, rfl, rfl, rfl⟩
 theorem PushSame.trans {c c' c'' : Conn} (h1 : PushSame c c') (h2 : PushSame c' c'') : PushSame c c'' :=
   ⟨h2.state.trans h1.state, h2.smq.trans h1.smq, h2.nr.trans h1.nr, h2.en.trans h1.en, h2.evs.trans h1.evs,
-   h2.tx.trans h1.tx, h2.g.trans h1.g, h2.neg.trans h1.neg⟩
+   h2.tx.trans h1.tx, h2.g.trans h1.g, h2.neg.trans h1.neg, h2.handlers.trans h1.handlers,
+   h2.idHandlers.trans h1.idHandlers, h2.timed.trans h1.timed, h2.hasSm.trans h1.hasSm, h2.pst.trans h1.pst,
+   h2.resetParser.trans h1.resetParser, h2.smId.trans h1.smId, h2.smPrevid.trans h1.smPrevid,
+   h2.smBoundJid.trans h1.smBoundJid, h2.smSupport.trans h1.smSupport, h2.smCanResume.trans h1.smCanResume,
+   h2.smDisable.trans h1.smDisable⟩
 
 /-- `pushRawWith` after the owner class has been decided -/
 def pushCore (c : Conn) (it : Item) (owner : Owner) (snap : Snap) : Conn :=
@@ -98,8 +115,8 @@ theorem pushCore_same (c : Conn) (it : Item) (o : Owner) (sn : Snap) : PushSame 
   unfold pushCore
   dsimp only
   split
-  · split <;> exact ⟨rfl, rfl, rfl, rfl, rfl, rfl, rfl, rfl⟩
-  · exact ⟨rfl, rfl, rfl, rfl, rfl, rfl, rfl, rfl⟩
+  · split <;> exact ⟨rfl, rfl, rfl, rfl, rfl, rfl, rfl, rfl, rfl, rfl, rfl, rfl, rfl, rfl, rfl, rfl, rfl, rfl, rfl, rfl⟩
+  · exact ⟨rfl, rfl, rfl, rfl, rfl, rfl, rfl, rfl, rfl, rfl, rfl, rfl, rfl, rfl, rfl, rfl, rfl, rfl, rfl, rfl⟩
 
 theorem pushRawWith_same (c : Conn) (it : Item) (o : Owner) (sn : Snap) : PushSame c (pushRawWith c it o sn) := by
   rw [pushRawWith_eq]; exact pushCore_same _ _ _ _
